@@ -86,6 +86,11 @@ FirstDev(out, exp) ==
 (*  - zero-length slice of a run-end array: written with the single run    *)
 (*    end 0, which the reader refuses: the read stops with an error        *)
 (*    exactly at a batch that holds such a column;                         *)
+(*  - union below a sliced list: a union array that is the child of a       *)
+(*    list / large list / map whose child range is a proper sub-range is   *)
+(*    written from its ArrayData without regard to the offset: wrong rows  *)
+(*    (dense) or an unreadable batch (sparse), at a batch holding such a   *)
+(*    column;                                                              *)
 (*  - StreamDecoder panics on a dense union whose offsets buffer is not    *)
 (*    4-byte aligned in the caller's chunk (no realignment on that path);  *)
 (*  - tracker ahead: a file-writer session with delta handling in which a  *)
@@ -98,14 +103,19 @@ KFRead(ev, out, exp) ==
   LET j == FirstDev(out, exp) IN
   CASE cfg.ver = 4 /\ cfg.ree /\ (ev.proj # <<>> \/ (ev.err \notin {"", "panic"} /\ j > 0 /\ Len(out) = j - 1)) -> KFREE
     [] cfg.ree /\ j \in DOMAIN gin /\ gin[j].ree0 /\ ev.err \notin {"", "panic"} /\ Len(out) = j - 1 -> "C04-ree-empty-slice-unreadable"
+    [] cfg.ulist /\ j \in DOMAIN gin /\ gin[j].uoff /\ ev.err # "panic" -> "C04-union-below-sliced-list"
     [] ev.via = "StreamDecoder" /\ ev.err = "panic" /\ cfg.dunion /\ j > 0 /\ Len(out) = j - 1 -> "C04-stream-decoder-dense-union-unaligned"
     [] cfg.w = "file" /\ handling = "delta" /\ FirstUnclean > 0 /\ j >= FirstUnclean -> KFID
     [] OTHER -> ""
-KFFlight(ev) == IF ev.ver = 4 /\ ev.ree THEN KFREE ELSE ""
+KFFlight(ev) ==
+  CASE ev.ver = 4 /\ ev.ree -> KFREE
+    [] ev.ulist /\ ev.res = "ok" /\ ev.err # "panic" -> "C04-union-below-sliced-list"    \* (splitting slices the batch)
+    [] ev.reelist /\ ev.res = "ok" /\ ev.err \notin {"", "panic"} -> "C04-ree-empty-slice-unreadable"
+    [] OTHER -> ""
 
 -----------------------------------------------------------------------------
 Init ==
-  /\ l = 1 /\ cfg = [w |-> "stream", align |-> 8, ver |-> 5, ree |-> FALSE, dunion |-> FALSE, cmeta |-> "[]", nd |-> 0, top |-> <<>>, schema |-> [meta |-> "", fields |-> <<>>], start |-> 0]
+  /\ l = 1 /\ cfg = [w |-> "stream", align |-> 8, ver |-> 5, ree |-> FALSE, dunion |-> FALSE, ulist |-> FALSE, cmeta |-> "[]", nd |-> 0, top |-> <<>>, schema |-> [meta |-> "", fields |-> <<>>], start |-> 0]
   /\ gin = <<>> /\ logged = <<>>
   /\ kind = "stream" /\ handling = "resend" /\ nd = 0 /\ written = NoDicts(0)
   /\ msgs = <<SchemaMsg>> /\ closed = FALSE /\ given = <<>>
@@ -133,7 +143,7 @@ WriteEv(ev) ==
        /\ Judge(ev.msgs # <<>> /\ ev.res = "ok" => ev.msgs[Len(ev.msgs)].n = ev.n, l, "row count in the record batch message")
        /\ Judge(AllAligned(ev.msgs, cfg.align), l, "W1 layout")
        /\ Write(ev.dicts)
-       /\ gin' = IF e.err THEN gin ELSE Append(gin, [n |-> ev.n, cols |-> ev.cols, clean |-> Stale = {}, ree0 |-> ev.ree0])
+       /\ gin' = IF e.err THEN gin ELSE Append(gin, [n |-> ev.n, cols |-> ev.cols, clean |-> Stale = {}, ree0 |-> ev.ree0, uoff |-> ev.uoff])
        /\ logged' = logged \o ev.msgs
        /\ UNCHANGED cfg
 
